@@ -184,10 +184,11 @@ class Run:
         if self._pending_crash:
             self._pending_crash = False
             raise VerifCrash()
-        if self.force_row is not None and "ORDER BY deliver_at" in sql and "queue_messages" in sql \
+        if self.force_row is not None and "ORDER BY" in sql and "queue_messages" in sql \
                 and sql.lstrip()[:6].upper() == "SELECT":
+            # delivery control: the poll's candidate query is narrowed to the chosen row (whatever its ORDER BY says)
             self.force_hit = True
-            return sql.replace("ORDER BY deliver_at", "AND id = %d ORDER BY deliver_at" % self.force_row)
+            return sql.replace("ORDER BY", "AND id = %d ORDER BY" % self.force_row, 1)
         return None
 
     def _on_exec(self, entry: dict) -> None:
